@@ -6,14 +6,12 @@ PROPS["C18"] = dict(
              require=["op.pull", "op.remove", "op.query", "op.multi", "op.connect", "op.len", "auth.nil",
                       "auth.sa.empty", "auth.sa.url", "auth.sa.bare", "auth.sa.bad",
                       "auth.form.userpass", "auth.form.token", "auth.form.base64",
-                      "pull.invalid-ref", "pull.backend-fails", "query.docker-alias", "case.starts-unconnected",
-                      "result.offered", "result.none", "result.error", "result.rejected"]),
+                      "pull.invalid-ref", "pull.backend-fails", "query.docker-alias", "case.starts-unconnected"]),
         dict(cmd="credsfetch", mod="root", model="Model.Headers", quick=320, thorough=20000, shard=80,
+             # only keys that depend on the generated inputs, not on what the implementation does with them
              require=["mirror.hdr0", "mirror.hdr1", "mirror.hdr2", "mirror.hdr3", "mirror.invalid", "mirrors.0", "mirrors.2",
-                      "resolve.ok", "resolve.failed", "resolve.ok.mirror", "resolve.ok.redirected",
                       "spawn.fetch", "spawn.check", "answer.403", "answer.400", "answer.401", "answer.3xx", "answer.2xx",
-                      "req.with-header", "req.to-redirect-location", "final.target-changed", "final.single-range",
-                      "done.ok", "done.failed", "auth.challenged", "auth.credential-sent", "auth.credential-withheld"]),
+                      "auth.keychain"]),
     ],
     rule="creds: random histories (3..24 ops) of CRI connect / PullImage (image strings incl. docker.io short forms, digests, unparsable; "
          "auth = user+password | identity token | base64 auth (valid, NUL-padded, no colon, invalid) | several | none; server address empty | URL | "
